@@ -344,3 +344,14 @@ class ASuper:
 class Token(Opaque):
     """An opaque value created by a rule that is known not to be None (a parameter the caller supplies)."""
     nonnull = True
+
+
+class MappedRun:
+    """The characters of ``run`` rendered through ``mapping`` (class name -> text), in order."""
+
+    def __init__(self, run, mapping):
+        self.run = run
+        self.mapping = dict(mapping)
+
+    def __repr__(self):
+        return "MappedRun(%r, %r)" % (self.run, self.mapping)
